@@ -10,8 +10,8 @@ import (
 
 func init() {
 	register(&propDef{
-		id:  "C20",
-		run: runC20,
+		id:          "C20",
+		run:         runC20,
 		explanation: "Static value-flow analysis of buffer ownership across the API boundary — the property closest to a pure static statement: (1) freshness: the value returned by DB.Get / Snapshot.Get / Transaction.Get / table.Reader.Get is on every path nil, a make, or an append onto nil/fresh, followed interprocedurally (result summaries, closure-captured result cells, conversions, re-slicing); (2) argument taint: the []byte and *Batch parameters of Put/Delete/Write/Get/Has (DB, Snapshot, Transaction), Batch.Put/Delete and iterator Seek never reach a store to a non-local location, a channel other than the reviewed merge hand-off (whose receiving side is analysed as its own root), the destination of copy/append, or an element store — through static calls with per-(function,parameter) summaries and callbacks resolved at their call sites; (3) iterator exposure: every store to dbIter.key/value is nil or an append onto the field's own re-sliced buffer, and the memdb copies into its own arena. The heap is modelled cell-/field-based (no points-to analysis in x/tools v0.29.0): aliasing through interface-typed cache values beyond the summarised paths is NOT covered.",
 		notCovered:  "aliasing through interface{}-typed cache values beyond the summarised paths; Batch.Load/Dump (documented as sharing); third-party comparer/filter/storage implementations retaining their arguments (assumed not to, per their interface contracts)",
 		assumptions: []string{"interface methods in the reviewed read-only set (Compare, Write, Contains, Add, Seek, …) do not retain or modify their []byte arguments, per their documented contracts", "string(b) and append(nil, b...) copy"},
